@@ -780,8 +780,14 @@ class MarkdownNormalizer(Renderer):
         self._prefix = self._second_prefix
         self._suppress_item_break = True  # This definition acts as a block separator.
 
-        # Footnote defs should be separated by extra newlines.
-        return content.rstrip("\n") + "\n\n"
+        # Footnote defs should be separated by extra newlines. Inside a quote the separating
+        # line carries the quote prefix (a bare blank line would end the quote), and trailing
+        # blank lines of the body, which carry that prefix too, are dropped first.
+        outer_blank = self._second_prefix.rstrip()
+        lines = content.rstrip("\n").split("\n")
+        while len(lines) > 1 and lines[-1].strip() == outer_blank.strip():
+            lines.pop()
+        return "\n".join(lines) + f"\n{outer_blank}\n"
 
     def render_strikethrough(self, element: gfm_elements.Strikethrough) -> str:
         return f"~~{self.render_children(element)}~~"
